@@ -400,6 +400,8 @@ fn miri_slice(ctx: &mut Ctx, _args: &Args) {
             }
             inputs.push(("inputs:miri-random-mutant", format!("random#{}:{}", it, patch.describe()), buf));
         }
+        // quick tier: the second font (its walks cost ~7 s each) only pristine + one truncation
+        let max_inputs = if !thorough && fi > 0 { max_inputs.min(2) } else { max_inputs };
         for (case_no, (kind, mutation, bytes)) in inputs.into_iter().take(max_inputs).enumerate() {
             let t0 = ctx.elapsed_s();
             // the boundary-sample effort for every input: the full effort (every glyph / code point) is the native profiles' job
@@ -422,12 +424,12 @@ fn miri_slice(ctx: &mut Ctx, _args: &Args) {
             }
             record(ctx, &first, kind, nt(&id, "miri", &mutation));
             if first.fields >= NONTRIVIAL_FIELDS && first.tables_ok > 0 {
-                ctx.sample_by_kind(kind, json!({"font": id, "mutation": mutation, "fields": first.fields, "tables_ok": first.tables_ok, "helper_calls": first.helper_calls, "digest": format!("{:016x}", first.d.finish()), "placements": "misalignments 0..3 (mutants in the quick tier: 0 and one of 1..3)"}));
+                ctx.sample_by_kind(kind, json!({"font": id, "mutation": mutation, "fields": first.fields, "tables_ok": first.tables_ok, "helper_calls": first.helper_calls, "digest": format!("{:016x}", first.d.finish()), "placements": "misalignments 0..3 (quick tier: 0..3 for the first pristine font, else 0 and one of 1..3)"}));
             }
             ctx.count("determinism_checks", 1);
             for (mis, pad) in [(1usize, 0x00u8), (2, 0xFF), (3, 0x5A)] {
-                // pristine inputs at every misalignment 0..3; mutants at 0 and one of 1..3 (all four in thorough)
-                if !thorough && mutation != "pristine" && mis != 1 + case_no % 3 {
+                // thorough: every input at misalignments 0..3. quick: the first font pristine at 0..3, everything else at 0 and one of 1..3
+                if !thorough && (mutation != "pristine" || fi > 0) && mis != 1 + (case_no + 2) % 3 {
                     continue;
                 }
                 let (owner, range) = gen::relocate(&bytes, mis, pad);
